@@ -60,6 +60,12 @@ struct Seg {
     bytes: VecDeque<u8>,
     complete: bool,
     started: bool,
+    /// Plaintext position of the first byte of this frame and its plaintext length (as written).
+    pstart: usize,
+    plen: usize,
+    /// First byte removed by `tamper trunc`: the byte delivered right after this frame must
+    /// differ from it (otherwise, with probability 1/256, nothing would have been modified).
+    guard: Option<u8>,
 }
 
 #[derive(Default)]
@@ -76,6 +82,8 @@ struct Shared {
     closed: bool,
     hdr: Vec<u8>,
     body_need: usize,
+    next_pstart: usize,
+    guard: Option<u8>,
 }
 
 impl Shared {
@@ -86,25 +94,30 @@ impl Shared {
                 bytes: VecDeque::new(),
                 complete: false,
                 started: false,
+                pstart: self.next_pstart,
+                plen: 0,
+                guard: None,
             });
         }
         let seg = self.segs.back_mut().expect("segment");
         seg.bytes.push_back(b);
+        let mut done = false;
         if self.hdr.len() < 2 {
             self.hdr.push(b);
             if self.hdr.len() == 2 {
                 self.body_need = ((self.hdr[0] as usize) << 8) | self.hdr[1] as usize;
-                if self.body_need == 0 {
-                    seg.complete = true;
-                    self.hdr.clear();
-                }
+                done = self.body_need == 0;
             }
         } else {
             self.body_need -= 1;
-            if self.body_need == 0 {
-                seg.complete = true;
-                self.hdr.clear();
-            }
+            done = self.body_need == 0;
+        }
+        if done {
+            // frame = 2 length bytes + plaintext + 16-byte tag
+            seg.plen = (self.hdr[0] as usize * 256 + self.hdr[1] as usize).saturating_sub(16);
+            seg.complete = true;
+            self.next_pstart += seg.plen;
+            self.hdr.clear();
         }
     }
 
@@ -113,14 +126,22 @@ impl Shared {
         while k > 0 {
             let Some(seg) = self.segs.front_mut() else { break };
             match seg.bytes.pop_front() {
-                Some(b) => {
+                Some(mut b) => {
                     seg.started = true;
+                    if let Some(g) = self.guard.take() {
+                        if b == g {
+                            b ^= 1;
+                        }
+                    }
                     self.inbox.push_back(b);
                     moved += 1;
                     k -= 1;
                 }
                 None => {
                     if seg.complete {
+                        if seg.guard.is_some() {
+                            self.guard = seg.guard;
+                        }
                         self.segs.pop_front();
                     } else {
                         break;
@@ -130,7 +151,11 @@ impl Shared {
         }
         // drop exhausted complete segments at the front
         while self.segs.front().map_or(false, |s| s.complete && s.bytes.is_empty()) {
-            self.segs.pop_front();
+            if let Some(s) = self.segs.pop_front() {
+                if s.guard.is_some() {
+                    self.guard = s.guard;
+                }
+            }
         }
         moved
     }
@@ -435,6 +460,12 @@ impl VerifBox for NoiseBox {
                 };
                 format!("ok {}", sh.deliver(k))
             }
+            ["carrier", "clear"] => {
+                let mut sh = p.shared.borrow_mut();
+                sh.rscript.clear();
+                sh.wscript.clear();
+                "ok".into()
+            }
             ["carrier", "close"] => {
                 p.shared.borrow_mut().closed = true;
                 "ok".into()
@@ -484,35 +515,39 @@ impl VerifBox for NoiseBox {
                         _ => "bad-op".into(),
                     };
                 };
+                let done = format!("ok @{} +{}", sh.segs[si].pstart, sh.segs[si].plen);
                 match (*kind, args.as_slice()) {
                     ("flip", [_, off, mask]) => {
                         let len = sh.segs[si].bytes.len();
                         let mask = (1 + ((*mask).max(1) - 1) % 255) as u8;
                         sh.segs[si].bytes[*off % len] ^= mask;
-                        "ok".into()
+                        done
                     }
                     ("trunc", [_, cut]) => {
                         let len = sh.segs[si].bytes.len();
                         let cut = 1 + ((*cut).max(1) - 1) % len;
+                        if sh.segs[si].guard.is_none() {
+                            sh.segs[si].guard = Some(sh.segs[si].bytes[len - cut]);
+                        }
                         sh.segs[si].bytes.truncate(len - cut);
                         if sh.segs[si].bytes.is_empty() {
                             sh.segs.remove(si);
                         }
-                        "ok".into()
+                        done
                     }
                     ("dup", [_]) => {
                         let c = sh.segs[si].clone();
                         sh.segs.insert(si + 1, c);
-                        "ok".into()
+                        done
                     }
                     ("drop", [_]) => {
                         sh.segs.remove(si);
-                        "ok".into()
+                        done
                     }
                     ("swap", [_]) => match idx.get(i + 1) {
                         Some(&sj) => {
                             sh.segs.swap(si, sj);
-                            "ok".into()
+                            done
                         }
                         None => "none".into(),
                     },
